@@ -2274,4 +2274,57 @@ theorem childVals_decoded (S : Strconv) : ∀ (ks : List Node) (seq : Nat),
       exact childVals_decoded S rest seq hin hn c h
 end
 
+
+/-! ### XML → Map → XML → Map, tree level -/
+
+theorem encTree_single (cfg : EncCfg) (key : Str) (v : Val) (ns : List Node)
+    (hl : v.isList = false) (h : encTree cfg key v = .ok ns) :
+    ∃ attrs kids, ns = [.elem [] key attrs kids] := by
+  cases v with
+  | list _ => simp [Val.isList] at hl
+  | null => simp only [encTree, Except.ok.injEq] at h; subst h; exact ⟨_, _, rfl⟩
+  | str s => simp only [encTree, Except.ok.injEq] at h; subst h; exact ⟨_, _, rfl⟩
+  | num t => simp only [encTree, fmtV, Except.ok.injEq] at h; subst h; exact ⟨_, _, rfl⟩
+  | bool b =>
+    cases b <;> simp only [encTree, fmtV, Except.ok.injEq] at h <;> subst h <;> exact ⟨_, _, rfl⟩
+  | map vv =>
+    simp only [encTree] at h
+    repeat' split at h
+    all_goals first
+      | (simp only [Except.ok.injEq] at h; subst h; exact ⟨_, _, rfl⟩)
+      | simp at h
+
+theorem imageSibs_not_list (v : Val) (hl : v.isList = false) : imageSibs v = [image v] := by
+  cases v with
+  | list _ => simp [Val.isList] at hl
+  | null | bool _ | num _ | str _ | map _ => simp only [image, imageSibs, collectV]
+
+theorem norm_singleton_map (k : Str) (v : Val) : (Val.map [(k, v)]).norm = .map [(k, v.norm)] := rfl
+
+/-- for an in-domain tree `t`, encoding the value the conventions give and applying the
+    conventions to the encoder's tree gives an equivalent value -/
+theorem fixed_point_value (S : Strconv) (sp name : Str) (attrs : List Attr) (kids : List Node)
+    (hd : Conv.inDomain dc S (.elem sp name attrs kids) = true)
+    (hn : NamesOk (.elem sp name attrs kids) = true) :
+    ∃ n, encTree ec name (Conv.value dc S (.elem sp name attrs kids)).norm = .ok [n]
+      ∧ Conv.doc dc S n = .map [(name, Conv.value dc S n)]
+      ∧ Conv.value dc S n ≈ᵥ Conv.value dc S (.elem sp name attrs kids) := by
+  have hD := value_decoded S (.elem sp name attrs kids) hd hn rfl
+  generalize Conv.value dc S (.elem sp name attrs kids) = w at hD
+  have hDn := Decoded_norm w hD
+  have hwf : w.wf = true := EncDomain_wf w (Decoded_EncDomain w hD)
+  have hwfn : w.norm.wf = true := EncDomain_wf _ (Decoded_EncDomain _ hDn)
+  have hnl : w.norm.isList = false := by
+    unfold Decoded at hDn
+    simp only [Bool.and_eq_true, Bool.not_eq_true'] at hDn
+    exact hDn.1
+  obtain ⟨ns, hns⟩ := encTree_ok name w.norm (Decoded_EncDomain _ hDn)
+  obtain ⟨a', k', rfl⟩ := encTree_single ec name w.norm ns hnl hns
+  refine ⟨_, hns, rfl, ?_⟩
+  have hcv := childVals_encTree S name w.norm _ hwfn hns
+  rw [childVals_single, imageSibs_not_list _ hnl] at hcv
+  simp only [List.map_cons, List.map_nil, List.cons.injEq, Prod.mk.injEq, true_and, and_true] at hcv
+  rw [hcv]
+  exact Val.equiv_trans (image_decoded _ hDn) (norm_idem w hwf)
+
 end Mxj.Enc
